@@ -7,7 +7,7 @@
 mod script;
 
 use async_trait::async_trait;
-use script::{run_script, Marks, PeerIo, Script};
+use script::{run_script_persisting, Marks, PeerIo, Script};
 use tokio::io::{AsyncReadExt, AsyncWriteExt};
 
 struct Stdio {
@@ -30,14 +30,7 @@ impl PeerIo for Stdio {
     }
     async fn close(&mut self, abrupt: bool) {
         if abrupt {
-            // marks written so far are lost on purpose: the process dies like a killed cli
-            if let Some(p) = &self.marks_path {
-                let m = Marks {
-                    marks: vec![("killed".into(), script::mono_ns())],
-                    ..Marks::default()
-                };
-                let _ = std::fs::write(p, serde_json::to_vec(&m).unwrap_or_default());
-            }
+            // (marks are persisted incrementally by the interpreter)
             // SAFETY: plain syscalls
             unsafe {
                 libc::kill(libc::getpid(), libc::SIGKILL);
@@ -69,7 +62,12 @@ fn main() {
             .steps
             .iter()
             .any(|s| matches!(s, script::Step::Close { .. }));
-        let marks = run_script(&mut io, &script).await;
+        let marks = run_script_persisting(
+            &mut io,
+            &script,
+            marks_path.as_deref().map(std::path::Path::new),
+        )
+        .await;
         if !closes {
             // no explicit close: stay until the parent closes our stdin
             let mut b = [0u8; 1024];
